@@ -1184,43 +1184,58 @@ where
                 this_arg.set_scope(this_arg.adjacently_available_from(start));
             }
 
+            // an item that a wider attempt failed to convert or validate, with that failure
+            let mut blamed: Option<(usize, Message)> = None;
             loop {
                 #[cfg(bpaf_verif)]
                 crate::verif::tick();
                 let attempt_scope = this_arg.scope();
-                match self.inner.eval(&mut this_arg) {
+                let err = match self.inner.eval(&mut this_arg) {
                     Ok(res) => {
                         // there's a smaller adjacent scope, we must try it before returning.
                         if let Some(adj_scope) = this_arg.adjacent_scope(args) {
                             this_arg = args.clone();
                             this_arg.set_scope(adj_scope);
-                        } else {
-                            std::mem::swap(args, &mut this_arg);
-                            args.set_scope(original_scope);
-                            return Ok(res);
+                            continue;
                         }
-                    }
-                    Err(Error(err)) => {
-                        // the failure can come from an item that is not adjacent to the block,
-                        // such item is not a part of it: try the smaller adjacent scope first
-                        this_arg.set_scope(attempt_scope);
-                        if let Some(adj_scope) = this_arg.adjacent_scope(args) {
-                            // an item that is missing here is missing in a smaller scope too
-                            if !adj_scope.is_empty() && !matches!(err, Message::Missing(_)) {
-                                this_arg = args.clone();
-                                this_arg.set_scope(adj_scope);
-                                continue;
+                        match blamed.take() {
+                            // the block ends right in front of the item that failed earlier:
+                            // that item is a part of it and its failure stands
+                            Some((ix, err)) if this_arg.scope().end >= ix => err,
+                            _ => {
+                                std::mem::swap(args, &mut this_arg);
+                                args.set_scope(original_scope);
+                                return Ok(res);
                             }
                         }
-                        let consumed = before - this_arg.len();
-                        if consumed > best_consumed {
-                            best_consumed = consumed;
-                            std::mem::swap(&mut best_args, &mut this_arg);
-                            best_error = err;
-                        }
-                        break;
                     }
+                    Err(Error(err)) => match (&blamed, &err) {
+                        // the failure can come from an item that is not adjacent to the block,
+                        // such item is not a part of it: see what the group takes from the items
+                        // to the left of it
+                        (
+                            None,
+                            Message::ParseFailed(Some(ix), _) | Message::GuardFailed(Some(ix), _),
+                        ) if *ix > start && *ix < attempt_scope.end => {
+                            let ix = *ix;
+                            blamed = Some((ix, err));
+                            this_arg = args.clone();
+                            this_arg.set_scope(start..ix);
+                            continue;
+                        }
+                        _ => match blamed.take() {
+                            Some((_, first)) => first,
+                            None => err,
+                        },
+                    },
+                };
+                let consumed = before - this_arg.len();
+                if consumed > best_consumed {
+                    best_consumed = consumed;
+                    std::mem::swap(&mut best_args, &mut this_arg);
+                    best_error = err;
                 }
+                break;
             }
         }
 
